@@ -364,9 +364,9 @@ def inv(p):
     q = normalise(p)
     if len(q.t) == 1:
         ((w, c0),) = q.t.items()
-        # inverse of a product of square factors that are invertible by their contracts (unitary; positive diagonal
-        # eigenvalue roots and their inverses): inv(w1 ... wn) = inv(wn) ... inv(w1)
-        if len(w) > 1 and all(x.rows == x.cols and (x.unitary or (x.diag and (x.kind == "eig" or (x.kind == "inv" and x.data.kind == "eig")))) for x in w):
+        # inverse of a product of square factors that are invertible by their contracts (unitary; principal roots of
+        # positive definite operands; inverses; positive diagonal eigenvalue roots): inv(w1 ... wn) = inv(wn) ... inv(w1)
+        if len(w) > 1 and all(x.rows == x.cols and (x.unitary or x.kind in ("sqrt", "inv") or (x.diag and x.kind == "eig")) for x in w):
             out = tuple((x.dagger() if x.unitary else _inv_atom(x)) for x in reversed(w))
             return NC({out: A.ONE / c0}, p.cols, p.rows)
     a, c = as_atom(p, "U")
@@ -425,6 +425,9 @@ def _sqrt_atom(U):
     if T is None:
         T = Atom(f"sqrt({U.name})", U.rows, U.cols, herm=True, kind="sqrt", data=U)
         C.sqrt_of[U] = T
+        eg = getattr(C, "eig_of", {})
+        if U in eg or ("general", U) in eg:
+            raise A.OutsideSubset("sqrtm requested after the eigen-decomposition of the same matrix (request the root first)")
         C.rule((U,), NC({(T, T): A.ONE}, U.rows, U.cols))
         if U in C.inv_of:
             iT = _inv_atom(T)
@@ -507,14 +510,36 @@ def transpose(p):
     return NC(out, p.cols, p.rows)
 
 
-def eigh(p):
-    """Assumed contract of an eigen-decomposition of a Hermitian positive definite matrix S: (Dh, V) with V unitary,
-    Dh = diag(sqrt(eigenvalues)) real positive diagonal, S = V Dh Dh V†  (hence S V = V Dh Dh, inv(S) = V inv(Dh) inv(Dh) V†)."""
+def eigh(p, hermitian_solver=True):
+    """Assumed contracts of the eigen-decompositions of a Hermitian positive definite matrix S (Dh = diag(sqrt(eigenvalues)) is
+    real positive diagonal by the spectral theorem in both cases):
+      linalg.eigh  ('eigh'): S = V Dh Dh V† with V UNITARY                       (hence inv(S) = V inv(Dh) inv(Dh) V†)
+      linalg.eig   ('eig') : S = V Dh Dh inv(V) with V merely INVERTIBLE - the general solver does not orthogonalise the
+                             eigenvectors of (nearly) degenerate eigenvalues."""
     C = ctx()
-    C.assumed.add("eig-hermitian")
+    if not hermitian_solver:
+        return _eig_general(p)
+    C.assumed.add("eigh")
     p = normalise(p)
     if p.rows != p.cols or not is_zero(p - p.dagger()):
         raise A.OutsideSubset("eigen-decomposition of a matrix that is not provably Hermitian")
+    root = _root_square(p)
+    if root is not None:
+        # S = c T T with T the principal root already requested: decompose T = V (sqrt(c)^-1 ... ) -> T = V Dh V†
+        T, c = root
+        if not hasattr(C, "eig_of"):
+            C.eig_of = {}
+        if T not in C.eig_of:
+            V = Atom(f"eigvec({T.data.name})", T.rows, T.cols, kind="eig", data=T, unitary=True)
+            Dh = Atom(f"eigval^1/2({T.data.name})", T.rows, T.cols, herm=True, diag=True, real=True, kind="eig", data=T)
+            _unitary_rules(V)
+            iDh = _inv_atom(Dh)
+            iDh.real = True
+            C.rule((T,), NC({(V, Dh, V.dagger()): A.ONE}, T.rows, T.cols))
+            C.eig_of[T] = (Dh, V)
+            _renormalise_defs()
+        Dh, V = C.eig_of[T]
+        return Dh, V, c
     a, c = as_atom(p, "S")
     if a is None:
         raise A.OutsideSubset("eigen-decomposition of a scalar matrix")
@@ -530,8 +555,66 @@ def eigh(p):
         if a in C.inv_of:
             C.rule((C.inv_of[a],), NC({(V, iDh, iDh, V.dagger()): A.ONE}, a.rows, a.cols))
         C.eig_of[a] = (Dh, V)
+        T = C.sqrt_of.get(a)
+        if T is not None:
+            # uniqueness of the principal root: sqrtm(S) = V Dh V†
+            C.rule((T,), NC({(V, Dh, V.dagger()): A.ONE}, a.rows, a.cols))
         _renormalise_defs()
     Dh, V = C.eig_of[a]
+    return Dh, V, c
+
+
+def _root_square(p):
+    """(T, c) if p == c T T with T a principal-root atom."""
+    if len(p.t) == 1:
+        ((w, c),) = p.t.items()
+        if len(w) == 2 and w[0] is w[1] and w[0].kind == "sqrt":
+            return w[0], c
+    return None
+
+
+def _eig_general(p):
+    C = ctx()
+    C.assumed.add("eig")
+    p = normalise(p)
+    if p.rows != p.cols or not is_zero(p - p.dagger()):
+        raise A.OutsideSubset("eigen-decomposition of a matrix that is not provably Hermitian")
+    root = _root_square(p)
+    if root is not None:
+        T, c = root
+        if not hasattr(C, "eig_of"):
+            C.eig_of = {}
+        key = ("general", T)
+        if key not in C.eig_of:
+            V = Atom(f"eigvec_general({T.data.name})", T.rows, T.cols, kind="eig", data=T)
+            Dh = Atom(f"eigval^1/2({T.data.name})", T.rows, T.cols, herm=True, diag=True, real=True, kind="eig", data=T)
+            iV = _inv_atom(V)
+            iDh = _inv_atom(Dh)
+            iDh.real = True
+            C.rule((T,), NC({(V, Dh, iV): A.ONE}, T.rows, T.cols))
+            C.eig_of[key] = (Dh, V)
+            _renormalise_defs()
+        Dh, V = C.eig_of[key]
+        return Dh, V, c
+    a, c = as_atom(p, "S")
+    if a is None:
+        raise A.OutsideSubset("eigen-decomposition of a scalar matrix")
+    if not hasattr(C, "eig_of"):
+        C.eig_of = {}
+    key = ("general", a)
+    if key not in C.eig_of:
+        V = Atom(f"eigvec_general({a.name})", a.rows, a.cols, kind="eig", data=a)
+        Dh = Atom(f"eigval^1/2({a.name})", a.rows, a.cols, herm=True, diag=True, real=True, kind="eig", data=a)
+        iV = _inv_atom(V)
+        C.rule((a,), NC({(V, Dh, Dh, iV): A.ONE}, a.rows, a.cols))
+        iDh = _inv_atom(Dh)
+        iDh.real = True
+        C.eig_of[key] = (Dh, V)
+        T = C.sqrt_of.get(a)
+        if T is not None:
+            C.rule((T,), NC({(V, Dh, iV): A.ONE}, a.rows, a.cols))
+        _renormalise_defs()
+    Dh, V = C.eig_of[key]
     return Dh, V, c
 
 
